@@ -218,7 +218,11 @@ def check_history(case, ctx):
             elif op == "p":
                 pres = impl(w.write, poison_record(kind))
                 if pres.ok:
-                    raise RuntimeError("harness: poison record accepted by %s" % kind)
+                    # an implementation that defers the refusal (serialises at flush time) leaves the model without a
+                    # statement about this record: the history is abandoned and counted, neither pass nor fail
+                    ctx.cls("abandoned:unserialisable-record-accepted")
+                    impl(w.close)
+                    return
                 ctx.cls("write-raised-and-caller-continued")
                 flushed_last = False
                 continue
